@@ -1093,12 +1093,192 @@ def inline_new_helpers(d, max_blocks=250, rounds=4):
     return sorted(done)
 
 
+def desugar_iter_closures(d):
+    """`iter.for_each(|x| body)` and `iter.try_for_each(|x| body)` with a closure built in the calling function are rewritten
+    into the loop they stand for (`while let Some(x) = iter.next() { body }`, with `?` on the body's result for the try
+    form): the closure's blocks are copied into the caller, its captured variables replaced by the captured places, its
+    parameter assigned from `next()`. Every rule then sees a loop whichever way it is spelled. The pinned tree has no such
+    call, so nothing is rewritten there. Returns the names of the closures that were expanded."""
+    import copy
+    bodies = {b["def"]: b for b in d.get("bodies", [])}
+    done = []
+    for b in d["bodies"]:
+        i = 0
+        while i < len(b["blocks"]):
+            t = b["blocks"][i].get("term")
+            i += 1
+            if not t or t.get("k") != "call" or t.get("t") is None or len(t.get("args", [])) != 2 or len(b["blocks"]) > 900:
+                continue
+            g = t["callee"].get("generic") or ""
+            if g not in ("std::iter::Iterator::for_each", "std::iter::Iterator::try_for_each"):
+                continue
+            is_try = g.endswith("try_for_each")
+            ca = t["args"][1]
+            if ca.get("k") not in ("move", "copy") or ca["place"]["p"]:
+                continue
+            cl = ca["place"]["l"]
+            aggs = [st for blk in b["blocks"] for st in blk.get("stmts", []) if st.get("k") == "assign" and st["lhs"]["l"] == cl and not st["lhs"]["p"]]
+            if len(aggs) != 1 or aggs[0]["rv"].get("k") != "agg" or aggs[0]["rv"].get("ak") != "closure" or aggs[0]["rv"].get("def") not in bodies:
+                continue
+            h = bodies[aggs[0]["rv"]["def"]]
+            if h.get("arg_count") != 2 or len(h["blocks"]) > 250:
+                continue
+            ups = aggs[0]["rv"]["ops"]
+            by_ref_env = h["locals"][1]["ty"].startswith("&")
+            line = t.get("line", 0)
+            ci = i - 1
+            off_l, off_b = len(b["locals"]), len(b["blocks"])
+            for l in h["locals"]:
+                b["locals"].append(copy.deepcopy(l))
+
+            def new_local(ty, name=None):
+                b["locals"].append({"ty": ty, "name": name} if name else {"ty": ty})
+                return len(b["locals"]) - 1
+            # captured variables: the place each upvar stands for
+            up_place = {}
+            for k, o in enumerate(ups):
+                if o.get("k") in ("move", "copy"):
+                    up_place[k] = copy.deepcopy(o["place"])
+                else:
+                    nl = new_local(o.get("ty", "?"))
+                    b["blocks"][ci]["stmts"].append({"k": "assign", "lhs": {"l": nl, "p": [], "ty": o.get("ty", "?")}, "rv": {"k": "use", "op": copy.deepcopy(o)}, "line": line})
+                    up_place[k] = {"l": nl, "p": [], "ty": o.get("ty", "?")}
+
+            def lmap(v, off_l=off_l):
+                return v + off_l
+
+            def fix_places(x):
+                """Replace `(*env).k ...` by the captured place (on the already shifted fragment)."""
+                if isinstance(x, list):
+                    return [fix_places(v) for v in x]
+                if not isinstance(x, dict):
+                    return x
+                if "l" in x and "p" in x and isinstance(x.get("l"), int) and x["l"] == off_l + 1:
+                    pr = x["p"]
+                    k0 = 1 if (by_ref_env and pr and pr[0] == "*") else 0
+                    if len(pr) > k0 and isinstance(pr[k0], dict) and isinstance(pr[k0].get("f"), int) and pr[k0]["f"] in up_place and (k0 == 1 or not by_ref_env):
+                        base = up_place[pr[k0]["f"]]
+                        out = dict(x)
+                        out["l"] = base["l"]
+                        out["p"] = list(base["p"]) + [fix_places(e) for e in pr[k0 + 1:]]
+                        return out
+                return {k: fix_places(v) for k, v in x.items()}
+            item_ty = h["locals"][2]["ty"]
+            ret_ty = h["locals"][0]["ty"]
+            it = t["args"][0]
+            it_ty = it["place"].get("ty") or b["locals"][it["place"]["l"]]["ty"] if it.get("k") in ("move", "copy") else "?"
+            n_blocks = len(h["blocks"])
+            HEAD, SW, BODY, EXIT, UNREACH, CHK, CHK2, BRK, ERRX = [off_b + n_blocks + k for k in range(9)]
+            # closure blocks
+
+            def only_returns(hb, seen=()):
+                """from block hb of the closure nothing happens any more but the return"""
+                blk_ = h["blocks"][hb]
+                tt_ = blk_.get("term") or {}
+                if [st for st in blk_.get("stmts", []) if st.get("k") == "assign" and st["rv"].get("k") != "discr"]:
+                    return False
+                if tt_.get("k") == "return":
+                    return True
+                return tt_.get("k") == "goto" and tt_["t"] not in seen and len(seen) < 8 and only_returns(tt_["t"], tuple(seen) + (hb,))
+            for hb, blk in enumerate(h["blocks"]):
+                nb = fix_places(_shift(blk, lmap, off_b))
+                tt = nb.get("term")
+                if tt and tt.get("k") == "return":
+                    nb["term"] = {"k": "goto", "t": CHK if is_try else HEAD, "line": tt.get("line", line)}
+                elif is_try and tt and tt.get("k") == "call" and (tt["callee"].get("generic") or "") == "std::ops::FromResidual::from_residual" \
+                        and tt["dest"]["l"] == off_l and not tt["dest"]["p"] and blk["term"].get("t") is not None and only_returns(blk["term"]["t"]):
+                    # the closure's own `?`: its result is the error itself - the loop ends with it (no second branch on a known Err)
+                    tt["t"] = ERRX
+                b["blocks"].append(nb)
+            opt_l = new_local("std::option::Option<%s>" % item_ty)
+            disc_l = new_local("isize")
+            if it_ty.startswith("&mut"):
+                ref_stmt, ref_l = [], None
+                next_arg = {"k": "copy", "place": copy.deepcopy(it["place"])}
+                self_ty = it_ty[len("&mut "):]
+            else:
+                ref_l = new_local("&mut " + it_ty)
+                ref_stmt = [{"k": "assign", "lhs": {"l": ref_l, "p": [], "ty": "&mut " + it_ty}, "rv": {"k": "ref", "mut": True, "place": copy.deepcopy(it["place"])}, "line": line}]
+                next_arg = {"k": "move", "place": {"l": ref_l, "p": [], "ty": "&mut " + it_ty}}
+                self_ty = it_ty
+            opt_pl = {"l": opt_l, "p": [], "ty": "std::option::Option<%s>" % item_ty}
+            b["blocks"].append({"stmts": ref_stmt, "term": {"k": "call", "callee": {"generic": "std::iter::Iterator::next", "generic_full": "<%s as std::iter::Iterator>::next" % self_ty,
+                               "targs": [self_ty], "trait": "std::iter::Iterator", "self_ty": self_ty, "self_head": self_ty.split("<")[0], "path": "std::iter::Iterator::next", "rk": "item", "local": False},
+                               "args": [next_arg], "dest": copy.deepcopy(opt_pl), "t": SW, "unwind": None, "exp": True, "macro": "Desugaring(ForLoop)", "line": line, "synthetic": g}})   # HEAD
+            b["blocks"].append({"stmts": [{"k": "assign", "lhs": {"l": disc_l, "p": [], "ty": "isize"}, "rv": {"k": "discr", "place": copy.deepcopy(opt_pl)}, "line": line}],
+                                "term": {"k": "switch", "op": {"k": "move", "place": {"l": disc_l, "p": [], "ty": "isize"}}, "targets": [[0, EXIT], [1, BODY]], "otherwise": UNREACH, "line": line}})   # SW
+            some_pl = {"l": opt_l, "p": [{"dc": "Some", "v": 1}, {"f": 0, "n": "0", "adt": "std::option::Option", "v": "Some", "fty": item_ty}], "ty": item_ty}
+            b["blocks"].append({"stmts": [{"k": "assign", "lhs": {"l": off_l + 2, "p": [], "ty": item_ty}, "rv": {"k": "use", "op": {"k": "move", "place": some_pl}}, "line": line}],
+                                "term": {"k": "goto", "t": off_b, "line": line}})   # BODY
+            if not is_try:
+                b["blocks"].append({"stmts": [{"k": "assign", "lhs": copy.deepcopy(t["dest"]), "rv": {"k": "use", "op": {"k": "const", "ty": "()", "zst": True}}, "line": line}],
+                                    "term": {"k": "goto", "t": t["t"], "line": line}})   # EXIT
+            elif ret_ty.startswith("std::result::Result<"):
+                unit_l = new_local("()")
+                inner = ret_ty[len("std::result::Result<"):-1]
+                b["blocks"].append({"stmts": [{"k": "assign", "lhs": {"l": unit_l, "p": [], "ty": "()"}, "rv": {"k": "agg", "ak": "tuple", "ops": []}, "line": line},
+                                              {"k": "assign", "lhs": copy.deepcopy(t["dest"]), "rv": {"k": "agg", "ak": "adt", "adt": "std::result::Result", "variant": "Ok", "fields": ["0"],
+                                               "targs": [x.strip() for x in inner.split(",", 1)], "ops": [{"k": "move", "place": {"l": unit_l, "p": [], "ty": "()"}}]}, "line": line}],
+                                    "term": {"k": "goto", "t": t["t"], "line": line}})   # EXIT
+            else:
+                unit_l = new_local("()")
+                b["blocks"].append({"stmts": [{"k": "assign", "lhs": {"l": unit_l, "p": [], "ty": "()"}, "rv": {"k": "agg", "ak": "tuple", "ops": []}, "line": line}],
+                                    "term": {"k": "call", "callee": {"generic": "std::ops::Try::from_output", "generic_full": "<%s as std::ops::Try>::from_output" % ret_ty, "targs": [ret_ty],
+                                             "trait": "std::ops::Try", "self_ty": ret_ty, "self_head": ret_ty.split("<")[0], "path": "std::ops::Try::from_output", "rk": "item", "local": False},
+                                             "args": [{"k": "move", "place": {"l": unit_l, "p": [], "ty": "()"}}], "dest": copy.deepcopy(t["dest"]), "t": t["t"], "unwind": None, "exp": True, "line": line, "synthetic": g}})   # EXIT
+            b["blocks"].append({"stmts": [], "term": {"k": "unreachable", "line": line}})   # UNREACH
+            if is_try:
+                m_ = re.match(r"std::result::Result<(.*), ([^,]+)>$", ret_ty)
+                res_ty = "std::result::Result<std::convert::Infallible, %s>" % (m_.group(2) if m_ else "?")
+                cf_ty = "std::ops::ControlFlow<%s>" % res_ty
+                cf_l, d2_l, rs_l = new_local(cf_ty), new_local("isize"), new_local(res_ty)
+                ret_pl = {"l": off_l, "p": [], "ty": ret_ty}
+                b["blocks"].append({"stmts": [], "term": {"k": "call", "callee": {"generic": "std::ops::Try::branch", "generic_full": "<%s as std::ops::Try>::branch" % ret_ty, "targs": [ret_ty],
+                                    "trait": "std::ops::Try", "self_ty": ret_ty, "self_head": ret_ty.split("<")[0], "path": "<std::result::Result<T, E> as std::ops::Try>::branch", "rk": "item", "local": False},
+                                    "args": [{"k": "move", "place": ret_pl}], "dest": {"l": cf_l, "p": [], "ty": cf_ty}, "t": CHK2, "unwind": None, "exp": True, "macro": "Desugaring(QuestionMark)", "line": line, "synthetic": g}})   # CHK
+                b["blocks"].append({"stmts": [{"k": "assign", "lhs": {"l": d2_l, "p": [], "ty": "isize"}, "rv": {"k": "discr", "place": {"l": cf_l, "p": [], "ty": cf_ty}}, "line": line}],
+                                    "term": {"k": "switch", "op": {"k": "move", "place": {"l": d2_l, "p": [], "ty": "isize"}}, "targets": [[0, HEAD], [1, BRK]], "otherwise": UNREACH, "line": line}})   # CHK2
+                brk_pl = {"l": cf_l, "p": [{"dc": "Break", "v": 1}, {"f": 0, "n": "0", "adt": "std::ops::ControlFlow", "v": "Break", "fty": res_ty}], "ty": res_ty}
+                b["blocks"].append({"stmts": [{"k": "assign", "lhs": {"l": rs_l, "p": [], "ty": res_ty}, "rv": {"k": "use", "op": {"k": "move", "place": brk_pl}}, "line": line}],
+                                    "term": {"k": "call", "callee": {"generic": "std::ops::FromResidual::from_residual", "generic_full": "<%s as std::ops::FromResidual<%s>>::from_residual" % (ret_ty, res_ty),
+                                             "targs": [ret_ty, res_ty], "trait": "std::ops::FromResidual", "self_ty": ret_ty, "self_head": ret_ty.split("<")[0],
+                                             "path": "<std::result::Result<T, F> as std::ops::FromResidual<std::result::Result<std::convert::Infallible, E>>>::from_residual", "rk": "item", "local": False},
+                                             "args": [{"k": "move", "place": {"l": rs_l, "p": [], "ty": res_ty}}], "dest": copy.deepcopy(t["dest"]), "t": t["t"], "unwind": None, "exp": True,
+                                             "macro": "Desugaring(QuestionMark)", "line": line, "synthetic": g}})   # BRK
+                b["blocks"].append({"stmts": [{"k": "assign", "lhs": copy.deepcopy(t["dest"]), "rv": {"k": "use", "op": {"k": "move", "place": {"l": off_l, "p": [], "ty": ret_ty}}}, "line": line}],
+                                    "term": {"k": "goto", "t": t["t"], "line": line}})   # ERRX
+            else:
+                for _ in range(4):
+                    b["blocks"].append({"stmts": [], "term": {"k": "unreachable", "line": line}})
+            b["blocks"][ci]["term"] = {"k": "goto", "t": HEAD, "line": line, "desugared": g}
+            done.append(h["def"])
+    if done:
+        # expanded closures that nothing calls or builds any more are dropped (their code now lives in the caller)
+        still = set()
+        for b in d["bodies"]:
+            for blk in b["blocks"]:
+                tt = blk.get("term") or {}
+                if tt.get("k") == "call":
+                    for a in tt.get("args", []):
+                        if isinstance(a, dict) and a.get("k") in ("move", "copy") and not a["place"]["p"]:
+                            for blk2 in b["blocks"]:
+                                for st in blk2.get("stmts", []):
+                                    if st.get("k") == "assign" and st["lhs"]["l"] == a["place"]["l"] and st["rv"].get("k") == "agg" and st["rv"].get("ak") == "closure":
+                                        still.add(st["rv"]["def"])
+        gone = {n for n in done if n not in still}
+        d["bodies"] = [b for b in d["bodies"] if b["def"] not in gone]
+    return sorted(set(done))
+
+
 class Crate:
     def __init__(self, path, config):
         with open(path) as fh:
             d = json.load(fh)
         self.renames = canonicalise_renames(d)
         self.inlined = inline_new_helpers(d)
+        self.desugared = desugar_iter_closures(d)
+        if self.desugared:
+            self.inlined = self.inlined + ["(loop form of) " + x for x in self.desugared]
         self.config = config
         self.path = path
         self.features = d.get("cfg", [])
